@@ -335,3 +335,144 @@ pub const IRREVERSIBLE_MATES: &[(&str, &str)] = &[
     ("1R4R1/3P4/3K4/7k/p4p2/8/8/8 w - - 0 1", "d7d8q"),
     ("1R5n/8/7P/8/8/8/6RK/4k3 w - - 0 1", "h6h7"),
 ];
+
+
+/// Random position rich in piece kinds (for special mating patterns).
+pub fn random_rich(rng: &mut Rng64) -> Pos {
+    loop {
+        let strong_white = rng.chance(500);
+        let (c, o) = if strong_white { (0, BLACK_BIT) } else { (BLACK_BIT, 0) };
+        let kinds = [QUEEN, ROOK, ROOK, BISHOP, BISHOP, KNIGHT, KNIGHT, PAWN, PAWN, PAWN];
+        let mut pieces = vec![KING, KING | BLACK_BIT];
+        let ns = 2 + rng.below(4) as usize;
+        for _ in 0..ns {
+            pieces.push(*rng.pick(&kinds) | c);
+        }
+        let nw = rng.below(4) as usize;
+        for _ in 0..nw {
+            pieces.push(*rng.pick(&[PAWN, PAWN, KNIGHT, BISHOP, ROOK]) | o);
+        }
+        let side = if strong_white { 0 } else { 1 };
+        if let Some(mut p) = place(rng, &pieces, side) {
+            // sometimes give an en-passant opportunity a chance: a defender pawn that "just" made a double step
+            if rng.chance(150) {
+                for f in 0..8u8 {
+                    let (sq, behind, behind2, want) = if side == 0 { (4 * 8 + f, 5 * 8 + f, 6 * 8 + f, PAWN | BLACK_BIT) } else { (3 * 8 + f, 2 * 8 + f, 8 + f, PAWN) };
+                    if p.board[sq as usize] == want && p.board[behind as usize] == EMPTY && p.board[behind2 as usize] == EMPTY {
+                        p.ep = Some(behind);
+                        break;
+                    }
+                }
+            }
+            if p.is_sane() && !p.legal_moves().is_empty() {
+                return p;
+            }
+        }
+    }
+}
+
+/// Mate-in-one positions whose mating move is of a special kind (found by `wsim findmates`,
+/// re-verified by the solver whenever used): kind, position, mating move.
+pub const SPECIAL_MATES: &[(&str, &str, &str)] = &[
+    ("capture", "3k1N2/rr5p/B2r4/K7/3Bb3/8/8/8 b - - 0 1", "a7a6"),
+    ("capture", "8/8/1P6/4n2K/5q2/8/N6B/3kb1q1 b - - 0 1", "f4h2"),
+    ("capture", "k7/7n/8/8/4q3/8/4P3/4K1n1 b - - 0 1", "e4e2"),
+    ("capture", "7B/4kq2/8/8/6q1/4KP2/1q6/8 b - - 0 1", "g4f3"),
+    ("capture", "K7/8/7k/8/P3r3/1r3p2/8/4R3 b - - 0 1", "e4a4"),
+    ("capture", "1k6/1n2Q1n1/K7/1Q6/8/8/b1P5/8 w - - 0 1", "b5b7"),
+    ("capture", "4B3/5K1k/8/2R4p/8/8/8/8 w - - 0 1", "c5h5"),
+    ("capture", "8/8/7P/K1R1R3/R2r4/8/3k4/3B4 w - - 0 1", "a4d4"),
+    ("capture", "8/8/8/6RB/2K4k/2Q3n1/8/8 w - - 0 1", "c3g3"),
+    ("capture", "3Q4/2p2Q2/5r2/6k1/4p3/8/2K5/3B4 w - - 0 1", "f7f6"),
+    ("capture", "2KR4/k7/1q6/3N1nq1/8/8/8/8 b - - 0 1", "b6d8"),
+    ("capture", "3k2K1/b4r1N/7q/2rB4/8/6R1/8/1q6 b - - 0 1", "b1h7"),
+    ("capture", "1k6/7b/8/7q/n2p4/P7/8/2KN1q2 b - - 0 1", "h5d1"),
+    ("capture", "7R/4Q3/3nR3/p2k4/8/6KN/4b3/2R5 w - - 0 1", "e7d6"),
+    ("discovered", "K1n3rk/5r2/8/8/8/8/2p5/8 b - - 0 1", "c8a7"),
+    ("discovered", "1r6/2K5/8/2p5/b1k5/6n1/7b/8 b - - 0 1", "g3f1"),
+    ("discovered", "1B5k/3R3p/5K2/8/3B4/8/4N3/B4n2 w - - 0 1", "f6f7"),
+    ("discovered", "4QR2/5K1k/8/n6N/3R3Q/6r1/3r4/8 w - - 0 1", "h5g7"),
+    ("discovered", "3qbK2/1n5p/6k1/2N4q/8/3P4/8/7N b - - 0 1", "e8c6"),
+    ("discovered", "8/3q4/8/4r3/3n4/6p1/6P1/1k1K4 b - - 0 1", "d4c2"),
+    ("discovered", "8/8/8/4q3/4p3/2k4b/8/Kb5b b - - 0 1", "c3c2"),
+    ("discovered", "RB4k1/1R6/K7/8/8/4b3/2B5/7B w - - 0 1", "b8f4"),
+    ("discovered", "8/8/4k3/b3P3/3qp3/2r5/4p3/4K3 b - - 0 1", "c3c2"),
+    ("discovered", "k7/2K3p1/B7/8/R7/8/3B2R1/8 w - - 0 1", "a6c4"),
+    ("discovered", "2Q5/k7/8/2R4P/3QKN2/8/8/8 w - - 0 1", "c5c2"),
+    ("discovered", "2r3Q1/8/8/1R3K2/P7/8/8/k2N3R w - - 0 1", "d1c3"),
+    ("discovered", "8/4k3/r4r2/8/b7/1r3q2/8/K7 b - - 0 1", "a4d7"),
+    ("discovered", "1r1k3K/b2r4/3b2r1/8/8/8/8/8 b - - 0 1", "d8c7"),
+    ("double", "5N2/B7/8/8/7n/4R1K1/1N6/1B4k1 w - - 0 1", "e3e1"),
+    ("double", "8/2N5/8/8/1K3Q2/3R1N1k/3R4/8 w - - 0 1", "f3g1"),
+    ("double", "8/8/2b5/1k2p3/8/6p1/6rb/7K b - - 0 1", "g2g1"),
+    ("double", "7k/8/K4R2/N6B/2Q5/8/1B6/8 w - - 0 1", "f6h6"),
+    ("double", "8/8/r7/8/n7/6R1/K2n4/2b1k1q1 b - - 0 1", "a4c3"),
+    ("double", "4B1N1/8/6r1/1R3Q1N/k7/2K2b2/8/3b4 w - - 0 1", "b5a5"),
+    ("double", "6RQ/7B/2K5/8/2b5/7k/7B/8 w - - 0 1", "h7f5"),
+    ("double", "1r6/3k4/K5p1/8/b2b4/8/3P4/r7 b - - 0 1", "a4b5"),
+    ("double", "2k4K/4r3/5r1n/6P1/3q4/8/8/3N4 b - - 0 1", "f6f8"),
+    ("double", "1QN3k1/K7/3r2P1/7p/3B2p1/8/8/8 w - - 0 1", "c8e7"),
+    ("double", "7k/5r2/7q/8/1B1p4/3PN1qn/8/7K b - - 0 1", "h3f2"),
+    ("double", "8/5K2/8/2br4/8/1q2r1q1/2k5/8 b - - 0 1", "d5f5"),
+    ("double", "k7/b7/p6n/8/1P6/4P3/2K3R1/1N5B w - - 0 1", "g2g8"),
+    ("double", "3K3k/2B1R3/5R2/8/8/1R6/6p1/B7 w - - 0 1", "f6f8"),
+    ("pawn", "4n3/5QR1/1K5k/8/6P1/8/7P/8 w - - 0 1", "g4g5"),
+    ("pawn", "3rN2R/8/8/8/8/4pk2/3p3q/5K2 b - - 0 1", "e3e2"),
+    ("pawn", "8/8/2n5/4b3/8/3p3p/6R1/3n1k1K b - - 0 1", "h3g2"),
+    ("pawn", "8/5n2/4K2R/6k1/B6R/8/5P2/8 w - - 0 1", "f2f4"),
+    ("pawn", "8/8/1n6/1pr5/8/K1k1r3/1r6/8 b - - 0 1", "b5b4"),
+    ("pawn", "3k1K2/2R5/4Pp2/6p1/2B5/6Q1/8/8 w - g6 0 1", "e6e7"),
+    ("pawn", "4k3/1b4K1/5P2/5N1P/3R1P2/8/8/8 w - - 0 1", "f6f7"),
+    ("pawn", "8/8/8/8/8/2b1b1pk/8/7K b - - 0 1", "g3g2"),
+    ("pawn", "k5N1/4bb2/BPN5/8/K7/3Q4/8/8 w - - 0 1", "b6b7"),
+    ("pawn", "8/8/1K6/4Q2R/3p2k1/3N4/4PP2/8 w - - 0 1", "f2f3"),
+    ("pawn", "1q6/6k1/8/8/1p6/4r3/K7/2q5 b - - 0 1", "b4b3"),
+    ("pawn", "8/8/B7/1R6/2k5/1R4n1/3P4/B5K1 w - - 0 1", "d2d3"),
+    ("pawn", "4b3/1p2r3/4q3/2K5/8/1k3n2/3B4/8 b - - 0 1", "b7b6"),
+    ("pawn", "2K3k1/4R3/5Q1P/8/8/1P6/8/8 w - - 0 1", "h6h7"),
+    ("promotion", "8/5p2/1P2P3/8/8/1k6/3p4/1K6 b - - 0 1", "d2d1r"),
+    ("promotion", "6k1/P1R1P3/8/2K5/5B2/3Q4/8/8 w - - 0 1", "e7e8q"),
+    ("promotion", "b4B2/8/4qP2/5k2/8/8/1pK2n2/4q3 b - - 0 1", "b2b1q"),
+    ("promotion", "2b5/p7/8/4n3/4k3/8/1r4p1/3K4 b - - 0 1", "g2g1r"),
+    ("promotion", "8/6n1/5b2/1k6/8/B7/Kp5b/2q5 b - - 0 1", "b2b1q"),
+    ("promotion", "7n/q7/8/3r4/6b1/8/1k5p/3BK3 b - - 0 1", "h2h1q"),
+    ("promotion", "4k3/2P3R1/2R5/5P2/1K6/7P/8/8 w - - 0 1", "c7c8q"),
+    ("promotion", "8/4p3/r7/3k4/6b1/6b1/5p2/7K b - - 0 1", "f2f1q"),
+    ("promotion", "2r5/8/8/b7/4nb2/8/3k3p/5K2 b - - 0 1", "h2h1q"),
+    ("promotion", "8/4q3/5k1K/8/2p1b3/8/7p/b7 b - - 0 1", "h2h1r"),
+    ("promotion", "2k2n2/b3P1R1/8/8/2pR4/8/4K3/Q7 w - - 0 1", "e7e8r"),
+    ("promotion", "2k5/4P2R/8/P7/6K1/8/8/8 w - - 0 1", "e7e8q"),
+    ("promotion", "7k/8/8/4q3/4B3/1p6/5p2/7K b - - 0 1", "f2f1q"),
+    ("promotion", "8/8/6r1/8/6kp/7N/r4p2/3K4 b - - 0 1", "f2f1q"),
+];
+
+
+/// Opening lines (coordinate moves from the start position) that end where castling is a
+/// common continuation: the position is very likely in the engine's book with a castling move.
+pub const BOOK_CASTLE_LINES: &[&str] = &[
+    "e2e4 e7e5 g1f3 b8c6 f1b5 a7a6 b5a4 g8f6",
+    "e2e4 e7e5 g1f3 b8c6 f1c4 f8c5 c2c3 g8f6 d2d3 d7d6",
+    "e2e4 e7e5 g1f3 b8c6 f1c4 g8f6 d2d3 f8c5",
+    "d2d4 d7d5 c2c4 e7e6 b1c3 g8f6 c1g5 f8e7 e2e3",
+    "d2d4 g8f6 c2c4 e7e6 g1f3 b7b6 g2g3 c8b7 f1g2 f8e7",
+    "e2e4 c7c5 g1f3 d7d6 d2d4 c5d4 f3d4 g8f6 b1c3 g7g6 f1e2 f8g7",
+    "d2d4 g8f6 c2c4 g7g6 b1c3 f8g7 e2e4 d7d6 g1f3",
+    "e2e4 e7e6 d2d4 d7d5 b1c3 g8f6 c1g5 f8e7 e4e5 f6d7 g5e7 d8e7 f2f4",
+    "g1f3 d7d5 g2g3 g8f6 f1g2 e7e6",
+    "c2c4 e7e5 b1c3 g8f6 g1f3 b8c6 g2g3 f8b4 f1g2",
+];
+
+/// The position after one of the lines above (possibly cut short by a couple of plies).
+pub fn book_castle_position(rng: &mut Rng64) -> Pos {
+    let line = *rng.pick(BOOK_CASTLE_LINES);
+    let toks: Vec<&str> = line.split_ascii_whitespace().collect();
+    let cut = toks.len() - rng.below(3) as usize;
+    let mut p = Pos::start();
+    for t in &toks[..cut] {
+        match Mv::parse(t) {
+            Some(m) if p.is_legal(m) => p = p.make(m),
+            _ => break,
+        }
+    }
+    p
+}
